@@ -29,3 +29,30 @@ Example C06_mpegts_example :
   option_map (fun pss => map pseq (concat pss)) (enc_many 376 65534 [[nrep 0 188; nrep 1 188; nrep 2 188]; [nrep 3 188]])
     = Some [65534; 65535; 0].
 Proof. vm_compute. reflexivity. Qed.
+
+(* ---- the translated kernels (tools/go2coq, spec.d/mpegts.txt; regenerated from the Go source on every run) ----
+   rtpmpegts/encoder.go: maxTSPacketsPerRTPPacket := e.PayloadMaxSize / mpegtsPacketSize, rtpPacketCount := n / m with the
+   n % m != 0 round-up (m = 0: division panic), the last-packet test, the payload size tsPacketCount*mpegtsPacketSize and
+   e.sequenceNumber++ ARE the formulas of Model.enc / mk_pkts: m = max / tsz, None iff m = 0, nlen (chunks m units) packets,
+   nlen g * tsz bytes, seq_next. *)
+From Coq Require Import ZArith.
+From GVL Require Import Chunks.
+From GVG Require Import Kern.
+From GV_mpegts Require Import BridgeLib Bridge.
+Open Scope Z_scope.
+Theorem C06_mpegts_kernels_are_the_code : forall (max m : N) (units g : list bytes) (i pc s : N),
+  Z.of_N max < i64max -> Z.of_N (nlen units) < i64max -> Z.of_N m < i64max -> Z.of_N (nlen g * tsz) < i64max ->
+  (1 <= pc)%N -> Z.of_N pc < i64max ->
+  k_mpegts_per_pkt (Z.of_N max) (Z.of_N tsz) = Some (Z.of_N (max / tsz)) /\
+  count_code (Z.of_N (nlen units)) (Z.of_N m) = (if (m =? 0)%N then None else Some (Z.of_N (nlen (chunks m units)))) /\
+  k_mpegts_last (Z.of_N i) (Z.of_N pc) = (i + 1 =? pc)%N /\
+  k_mpegts_size (Z.of_N (nlen g)) (Z.of_N tsz) = Z.of_N (nlen g * tsz) /\
+  k_mpegts_seq (Z.of_N s) = Z.of_N (seq_next s).
+Proof. exact enc_kernels_are_the_code. Qed.
+Print Assumptions C06_mpegts_kernels_are_the_code.
+
+Example C06_mpegts_example_kernels :
+  k_mpegts_per_pkt 1316 188 = Some 7 /\ k_mpegts_per_pkt 1315 188 = Some 6 /\ k_mpegts_per_pkt 187 188 = Some 0 /\
+  count_code 14 7 = Some 2 /\ count_code 15 7 = Some 3 /\ count_code 15 0 = None /\
+  k_mpegts_size 7 188 = 1316 /\ k_mpegts_last 2 3 = true /\ k_mpegts_seq 65535 = 0.
+Proof. vm_compute. repeat split. Qed.
